@@ -152,9 +152,25 @@ fn gen_graph(rng: &mut Rng) -> String {
 fn gen_hist(rng: &mut Rng) -> String {
     let k = *rng.pick(&[3i64, 4, 4, 6]);
     let n = rng.range(2, 3) as usize;
+    let mut return_poly: Option<Vec<Coord<f64>>> = None;
     let gs: Vec<Geometry<f64>> = (0..n)
         .map(|_| {
-            if rng.chance(1, 5) {
+            if rng.chance(1, 25) {
+                // a polygon with many boundary segments and decimal (non-dyadic) coordinates; its partners are points
+                // within an ulp of a slanted edge (`a + t (b − a)` in f64), isolated nodes of the partner's graph
+                let m = rng.range(16, 40);
+                let ring: Vec<Coord<f64>> = parabola_ring(m).into_iter().map(|p| Coord { x: p.x * 0.1, y: p.y * 0.01 }).collect();
+                return_poly = Some(ring.clone());
+                Geometry::Polygon(Polygon::new(LineString(ring), vec![]))
+            } else if let (Some(ring), true) = (&return_poly, rng.chance(2, 3)) {
+                let pts: Vec<Point<f64>> = (0..rng.range(1, 6)).map(|_| {
+                    let i = rng.below(ring.len() as u64 - 1) as usize;
+                    let (a, b) = (ring[i], ring[i + 1]);
+                    let t = rng.range(1, 99) as f64 / 100.0;
+                    Point(Coord { x: a.x + t * (b.x - a.x), y: a.y + t * (b.y - a.y) })
+                }).collect();
+                if pts.len() == 1 { Geometry::Point(pts[0]) } else { Geometry::MultiPoint(MultiPoint(pts)) }
+            } else if rng.chance(1, 5) {
                 // mixed-dimension collections and point-like members lying outside the extent of all
                 // segments (outside C01's domain for the *true* matrix, but prepared must still equal plain)
                 let kind = *rng.pick(&[2u64, 3, 5, 6, 7, 8]);
